@@ -93,11 +93,17 @@ Plan gen(uint64_t seed, const std::string& tier) {
             }
             granule = b / g;
         }
-        const int style = int(r.pick(std::vector<double>{FS_ONES, FS_FIXED, FS_HEAVY, FS_HEAVY, FS_NEARMEM, FS_NEARMEM, FS_SPLIT2, FS_BITMASK, FS_BITMASK}));
+        int style = int(r.pick(std::vector<double>{FS_ONES, FS_FIXED, FS_HEAVY, FS_HEAVY, FS_NEARMEM, FS_NEARMEM, FS_SPLIT2, FS_BITMASK, FS_BITMASK}));
+        if (r.chance(big ? 0.12 : 0.05)) {
+            style = FS_ALLMASKS;   // exhaustive over the framings of one short stream
+        }
         int64_t nsamp = r.logi(10, max_stream(kind, big));
         int64_t n = std::max<int64_t>(1, nsamp / granule);
         if (style == FS_BITMASK) {
             n = r.range(2, 12);
+        }
+        if (style == FS_ALLMASKS) {
+            n = r.range(2, big ? 11 : 9);
         }
         if (style == FS_ONES) {
             n = std::min<int64_t>(n, big ? 20000 : 3000);
@@ -266,7 +272,7 @@ Result exec(const Plan& pl) {
             try {
                 in->proc = make_proc(in->spec);
                 in->input = make_input(*in, *in->proc);
-                in->frames = make_framing(in->fstyle, in->fseed, in->n, in->fparam, std::max(1, in->proc->memory / in->proc->granule),
+                in->frames = make_framing(in->fstyle == FS_ALLMASKS ? int(FS_ONES) : in->fstyle, in->fseed, in->n, in->fparam, std::max(1, in->proc->memory / in->proc->granule),
                                           in->proc->block / in->proc->granule);
                 in->ch.assign(size_t(in->proc->nch), {});
             } catch (const std::exception& e) {
@@ -356,6 +362,39 @@ Result exec(const Plan& pl) {
         }
         if (!in.len_ok) {
             res.fail(std::string("C06:framelen:") + name, std::string(name) + " " + in.len_msg);
+        }
+        if (in.fstyle == FS_ALLMASKS && in.n <= 12 && res.ok) {
+            // every composition of this short stream, each on a fresh instance of the same class
+            set_cur_opf("C06 all compositions %s n=%lld", name, static_cast<long long>(in.n));
+            const int64_t nmask = int64_t(1) << (in.n - 1);
+            for (int64_t mask = 0; mask < nmask && res.ok; ++mask) {
+                const auto fr = make_framing(FS_BITMASK, 1, in.n, mask, 1, 1);
+                std::vector<std::vector<double>> ch(ref.size());
+                try {
+                    auto p2 = make_proc(in.spec);
+                    size_t pos = 0;
+                    for (int f : fr) {
+                        const int ns = f * p2->granule;
+                        p2->call(in.input.data() + pos * size_t(p2->in_width), ns, ch);
+                        pos += size_t(ns);
+                    }
+                } catch (const std::exception& e) {
+                    res.fail(std::string("C06:exception:") + name, fmt("%s composition mask %lld of %lld granules: exception: %s", name, static_cast<long long>(mask),
+                                                                       static_cast<long long>(in.n), e.what()));
+                    break;
+                }
+                for (size_t c = 0; c < ref.size(); ++c) {
+                    const Cmp cmp = compare_stream(ch[c], ref[c], 1e-9);
+                    if (!cmp.ok) {
+                        res.fail(std::string("C06:mismatch:") + name, fmt("%s channel %zu: composition mask %lld of a %lld-granule stream (%zu frames): element %zu: %s", name, c,
+                                                                          static_cast<long long>(mask), static_cast<long long>(in.n), fr.size(), cmp.at, cmp.what.c_str()));
+                        break;
+                    }
+                }
+                res.inc("sim.compositions_enumerated");
+                res.inc("fault.segment", int64_t(fr.size()) - 1);
+            }
+            res.inc("probe.all_compositions_of_short_stream");
         }
         // coverage accounting
         const int mem_g = std::max(1, in.proc->memory / in.proc->granule);
